@@ -204,11 +204,17 @@ def havoc(name, old):
     return SymInt(z3.Int(f"acc!{name}!{_HAVOC[0]}"), f"acc({name})")
 
 
-def for_each(xs, body, loop_id, accs=False):
+def for_each(xs, body, loop_id, accs=False, mut=None):
     """returns True when the loop ran over a symbolic sequence (the caller then havocs the accumulators)"""
     COUNTS["for_app"] += 1
     if isinstance(xs, SymSeq):
         COUNTS["symbolic"] += 1
+        if mut:
+            lc0 = getattr(ctx(), "loop_contracts", {}).get(loop_id.split(":")[1])
+            left = sorted(set(x.strip() for x in mut.split(",")) - set(getattr(lc0, "covers", ()) or ()))
+            if left:
+                raise Unsupported(f"loop {loop_id} over a symbolic sequence mutates the local container(s) {', '.join(left)}: their "
+                                  "contents at a generic iteration are unknown (no loop contract covers them)")
         c = ctx()
         lc = getattr(c, "loop_contracts", {}).get(loop_id.split(":")[1])
         if lc is None:
@@ -421,6 +427,29 @@ def _guard_native_marked(x, what):
         raise Unsupported(f"{what} of native text with opaque symbolic parts")
     if type(x) in (list, tuple) and any(_native_marked(e) or _is_sym(e) for e in x):
         raise Unsupported(f"{what} over values with symbolic parts")
+
+
+def b_type(*a, **k):
+    """type(x): a proxy stands for a value of the built-in type it models"""
+    if len(a) != 1 or k:
+        return builtins.type(*a, **k)
+    x = a[0]
+    if isinstance(x, SymBool):
+        return bool
+    if isinstance(x, SymInt):
+        return int
+    if isinstance(x, str) and builtins.type(x) is not str and (hasattr(x, "segs") or hasattr(x, "ident")):
+        return str
+    if isinstance(x, (SymSeq, SymPerms)) or (isinstance(x, list) and hasattr(builtins.type(x), "sym_len")):
+        return list
+    return builtins.type(x)
+
+
+def b_isinstance(x, t):
+    if isinstance(x, SymBool):
+        ts = t if builtins.type(t) is tuple else (t,)
+        return any(c in (bool, int, object) for c in ts)
+    return builtins.isinstance(x, t)
 
 
 def b_sorted(xs, **k):
